@@ -521,8 +521,14 @@ func (a *Attacker) Stop() bool {
 	case <-a.stopch:
 		return false
 	default:
-		a.stopOnce.Do(func() { close(a.stopch) })
-		return true
+		// Concurrent callers may all get here, only the one
+		// that closes the channel has signalled the stop.
+		stopped := false
+		a.stopOnce.Do(func() {
+			close(a.stopch)
+			stopped = true
+		})
+		return stopped
 	}
 }
 
